@@ -104,6 +104,49 @@ pub fn check_name(name: &[u8], zi: usize) -> Result<String, (String, String)> {
                 }
             }
         }
+        // the question of a pointer-free packet whose present question name has the SAME wire length, after
+        // the question has been looked at once (its memo is filled); read back through question()
+        if w.len() > 1 {
+            let mut same: Vec<u8> = w.clone();
+            let mut o = 0;
+            while same[o] != 0 {
+                let l = same[o] as usize;
+                for b in same[o + 1..o + 1 + l].iter_mut() {
+                    *b = b'q';
+                }
+                o += 1 + l;
+            }
+            let mut m = base_msg(&same, refmodel::wire::T_A, true);
+            m.an.push(a_rec(&same, 5, [1, 2, 3, 4]));
+            let hq = encode(&m, Strategy::Plain);
+            for settled in [false, true] {
+            let rb = caught(|| -> Result<Option<Vec<u8>>, String> {
+                let mut pp = crate::subj::parse(&hq).map_err(|e| e.to_string())?;
+                if settled {
+                    // the packet is known to be pointer-free (no decompression will precede the change)
+                    pp.recompute().map_err(|e| e.to_string())?;
+                }
+                let _ = pp.question_raw0();
+                let _ = pp.question();
+                let ok = {
+                    let mut it = pp.into_iter_question().ok_or("no question")?;
+                    it.set_raw_name(w).is_ok()
+                };
+                Ok(if ok { pp.question().map(|q| q.0) } else { None })
+            });
+            match rb {
+                Err(p) => return Err((format!("set_raw_name:panic:{}", panic_site(&p)), format!("set_raw_name on the question panicked with the converted name {}: {}", hex(w), p))),
+                Ok(Err(e)) => return Err(("setup".into(), e)),
+                Ok(Ok(None)) => {}
+                Ok(Ok(Some(text))) => {
+                    let want: Vec<u8> = dotted_lower(&exp);
+                    if want != text {
+                        return Err(("readback_differs".into(), format!("the question given {:?} reads back through question() as {:?}, expected {:?}", shown(), String::from_utf8_lossy(&text), String::from_utf8_lossy(&want))));
+                    }
+                }
+            }
+            }
+        }
     }
     Ok(format!("{:?} acc={} zone={} readback={}", class, got.is_ok() as u8, zone.is_some() as u8, readback))
 }
